@@ -62,7 +62,10 @@ def check(run, project):
     c15.f1_f2(RuleView(run, "F2", "L9"), project)
     # L13 (= C15-F1): convert decodes in warn mode through whichever front-end --in selects: the options it passes
     # (abort_on_error=False) reach the decoder on every branch of every front-end
-    c15.f1_f2(RuleView(run, "F1", "L13"), project)
+    try:
+        c15.f1_f2(RuleView(run, "F1", "L13"), project)
+    except AnalysisError as ex:
+        run.info(f"L13: the front-ends could not be followed ({ex}); not judged here (C15 reports it)")
     # L11 (= C11-A1): `example` prints what the events rebuilt from the decoded object say; the members a message may lack
     # altogether (no sessions, failure) must be exactly those the object-to-events conversion leaves out, else a printed
     # example carries a field its bytes do not have
